@@ -540,6 +540,10 @@ def rule_c(ctx):
                     p = path_avoiding(b, starts, b.return_blocks(), avoid | errs)
                     if p is not None and fn == 'SendStream::finish':
                         p = None if len(wakes) >= 1 and any(w in b.reachable_from(starts[0]) for w in wakes) else p
+            if p is not None and _assumed_result(b, s, None) is not None:
+                # the call returns a Result: only paths consistent with Ok(_) at every test of that result count, however the
+                # test is written (`?`, `match`, `if let Err`, `is_err()` + `return r`)
+                p = _path_assuming(F, b, s, 'ok', None, avoid)
             ctx.check(p is None, 'c', 'wake_after_mutation', b, s.where(), 'every success path after %s passes State::wake()' % short(s.f),
                       '%s can return successfully after %s without waking the connection driver (queued work is not transmitted): %s' % (fn, short(s.f), fmt_path(b, p)), site_class=short(s.f))
     ctx.floor('c', 'mutation_sites', n, 11)
@@ -554,6 +558,53 @@ def rule_c(ctx):
                 if not any(w in pr.reachable_from(br.target(1), avoid=[br.bb]) for w in wk):
                     ok = False
     ctx.check(ok, 'c', 'read_credit_wakes_driver', pr, pr.where(), 'finalize().should_transmit() -> wake()', 'flow-control credit released by a read no longer wakes the driver')
+
+
+def _stopped_waiter_wakes(F, b, idd):
+    """blocks of `b` that complete the pending stopped() futures of stream `idd` (descriptor of the stream id): the entry of that
+    stream is removed from State::stopped and, if there was one, its Notify is notified: `wake_stream_notify(id, &mut <state>.stopped)`,
+    or the same written in place (`HashMap::remove(&mut <state>.stopped, &id)` whose Some payload reaches notify_waiters on every path)"""
+    out = set()
+    live = b.live_blocks()
+    for c in b.calls():
+        if c.bb not in live or len(c.args) < 2:
+            continue
+        if short(c.f).endswith('wake_stream_notify'):
+            if arg_desc(F, c, 0) == idd and _outer_fields(arg_desc(F, c, 1)) == {'stopped'}:
+                out.add(c.bb)
+        elif c.is_('HashMap::remove', 'HashMap::remove_entry'):
+            if _outer_fields(arg_desc(F, c, 0)) == {'stopped'} and arg_desc(F, c, 1) == idd and _removed_entry_woken(F, b, c, 'Notify::notify_waiters'):
+                out.add(c.bb)
+    return out
+
+
+def rule_c_reset_completes_stopped(ctx):
+    """a local reset closes the stream for the application at once (proto SendStream::stopped() reports ClosedStream from then on) and
+    no proto event will ever report it: quinn SendStream::reset() itself must make the pending stopped() futures of that stream
+    re-check.  On every path from the proto reset() to the return that is consistent with reset() == Ok(_), the entry of the
+    stream that was reset (the id given to Connection::send_stream() for that very call) is removed from State::stopped and notified."""
+    F = ctx.facts
+    b = ctx.qfn('SendStream::reset')
+    live = b.live_blocks()
+    sites = [c for c in b.calls_to('quinn_proto::SendStream::reset') if c.bb in live]
+    ctx.floor('c', 'local_reset_sites', len(sites), 1)
+    for s in sites:
+        recv = flat(arg_desc(F, s, 0)) if s.args else []
+        ids = [x[3][1] for x in recv if x[0] == 'call' and x[1].endswith('Connection::send_stream') and len(x[3]) > 1]
+        same = bool(ids) and len(ids) == len(recv) and all(i_ == ids[0] for i_ in ids)
+        why = ''
+        if not same:
+            why = 'the stream that is reset is not identified (receiver is not Connection::send_stream(id))'
+        else:
+            wakes = _stopped_waiter_wakes(F, b, ids[0])
+            if not wakes:
+                why = 'nothing removes and notifies the entry of that stream in State::stopped'
+            else:
+                p = _path_assuming(F, b, s, 'ok', None, wakes)
+                if p is not None:
+                    why = 'a path from a successful reset() to the return avoids it: %s' % fmt_path(b, p)
+        ctx.check(not why, 'c', 'reset_completes_stopped_waiters', b, s.where(), 'reset() == Ok -> stopped.remove(&id) + notify_waiters() on every path, id = the stream that was reset',
+                  'SendStream::reset() does not wake the stopped() futures pending on the stream it reset (no event reports a local reset; they hang until the connection ends): %s' % why, site_class='SendStream::reset')
 
 
 def _arm_calls(F, b, br, value, stop_blocks):
@@ -648,16 +699,52 @@ def _inlined_stream_wake(F, b, c, helper, fld, event, stop):
         return False
     if not any(_is_variant_field(x, event, 'id') for x in walk(arg_desc(F, c, 1))):
         return False
-    eff = {e.bb for e in b.calls_to(STREAM_WAKE_EFFECT[helper]) if e.args and contains_site(arg_desc(F, e, 0), c)}
+    return _removed_entry_woken(F, b, c, STREAM_WAKE_EFFECT[helper], stop)
+
+
+def _stream_wake_helper_ok(F, h, effect):
+    """body of wake_stream / wake_stream_notify (the call sites are accepted by name): on every path the entry of the StreamId
+    parameter is removed from the map parameter and, if there was one, woken / notified"""
+    for c in h.calls_to('HashMap::remove', 'HashMap::remove_entry'):
+        if c.bb not in h.live_blocks() or len(c.args) < 2:
+            continue
+        m, k = arg_desc(F, c, 0), arg_desc(F, c, 1)
+        if m[0] == 'param' and k[0] == 'param' and 'StreamId' in h.locals[k[1]][0] and _removed_entry_woken(F, h, c, effect) \
+                and path_avoiding(h, [0], h.return_blocks(), {c.bb}) is None:
+            return True
+    return False
+
+
+def _removed_entry_woken(F, b, c, effect, stop=()):
+    """`if let Some(x) = <map>.remove(..) { x.<effect>() }` stated structurally for the remove call `c`: the result of `c` is
+    tested and on the Some edge of every such test every path (to a return / a block of `stop` / back to `c`) passes a call of
+    `effect` (Waker::wake / Notify::notify_waiters) on a value derived from the removed one (`if let`, `match`, is_some() + unwrap)."""
+    eff = {e.bb for e in b.calls_to(effect) if e.args and contains_site(arg_desc(F, e, 0), c)}
     if not eff:
         return False
-    some_edges = []
+    # edges consistent with `the result of c is Some(_)` at every test of that result (the drop elaboration of the emptied
+    # Option tests it again after the effect)
+    some_edges = {}
     for br in branches(F, b):
-        for t, cond in _edge_conds(br):
-            if (cond[0] == 'discr' and is_site(cond[1], c) and cond[2] == 1) or (cond[0] == 'some' and is_site(cond[1], c) and cond[2] is True):
-                some_edges.append(t)
+        conds = [(t, cond) for t, cond in _edge_conds(br) if cond[0] in ('discr', 'some') and is_site(cond[1], c)]
+        if not conds:
+            continue
+        explicit = [cond[2] for t, cond in conds if cond[0] == 'discr']
+        some_edges[br.bb] = {t for t, cond in conds if (cond[0] == 'discr' and (cond[2] == 1 or (cond[2] is None and 1 not in explicit))) or (cond[0] == 'some' and cond[2] is True)}
+    if not any(some_edges.values()):
+        return False
     goals = set(b.return_blocks()) | set(stop) | {c.bb}
-    return bool(some_edges) and all(path_avoiding(b, [t], goals, eff) is None for t in some_edges)
+    seen = set()
+    stack = list(b.succ[c.bb])
+    while stack:
+        bb = stack.pop()
+        if bb in seen or bb in eff:
+            continue
+        seen.add(bb)
+        if bb in goals:
+            return False
+        stack.extend(some_edges[bb] if bb in some_edges else b.succ[bb])
+    return True
 
 
 def rule_d(ctx):
@@ -697,6 +784,12 @@ def rule_d(ctx):
         missing = [w for w in wants if w not in got]
         ctx.check(not missing, 'd', 'event_wakes_its_waiters_' + name, fa, fa.where(), '%s -> %s' % (name, wants),
                   'StreamEvent::%s no longer wakes %s: tasks parked on that condition hang' % (name, missing))
+    # the helpers accepted by name above (and in c/reset_completes_stopped_waiters) do what their call sites are taken to mean
+    for helper, eff in sorted(STREAM_WAKE_EFFECT.items()):
+        for h in F.fns('connection::' + helper):
+            if h.crate == 'quinn' and h.kind == 'fn':
+                ctx.check(_stream_wake_helper_ok(F, h, eff), 'd', 'stream_wake_helper_' + helper, h, h.where(), 'map.remove(&id) -> Some(x) -> %s(x) on every path' % eff,
+                          '%s() no longer removes and wakes the entry of its stream: every waiter class woken through it hangs' % helper)
     # per-direction Notify arrays: on the arm of StreamEvent::<E> (and, when the arm tests `dir`, on the edge of each Dir value)
     # the element of that direction is notified (constant index = that Dir, an index computed from the event's `dir`, or all elements)
     for ev, fld in (('Opened', 'stream_incoming'), ('Available', 'stream_budget_available')):
@@ -1143,6 +1236,7 @@ def run(ctx):
     rule_b(ctx)
     rule_b_waiter_notify(ctx)
     rule_c(ctx)
+    rule_c_reset_completes_stopped(ctx)
     rule_d(ctx)
     rule_e(ctx)
     rule_f(ctx)
